@@ -79,9 +79,10 @@ public:
     const Scalar th2 = a_in.squaredNorm();
 
     const auto A = [&]() -> Scalar {
-      if (th2 < Scalar(eps2)) {
+      if (th2 < detail::taylor_eps2<Scalar, 2>()) {
         // https://www.wolframalpha.com/input/?i=series+1%2Fx%5E2-%281%2Bcos+x%29%2F%282*x*sin+x%29+at+x%3D0
-        return Scalar(1) / Scalar(12) + th2 / Scalar(720);
+        // (the closed form cancels like eps / th^2)
+        return Scalar(1) / Scalar(12) + th2 / Scalar(720) + th2 * th2 / Scalar(30240);
       } else {
         const Scalar th = sqrt(th2);
         return Scalar(1) / th2 - Scalar(1) / (Scalar(2) * th * tan(th / Scalar(2)));
